@@ -28,7 +28,7 @@ RULE = (
     "give A's result. (b) explicit-state BFS over histories of %d estimator specs "
     "with the event alphabet {fit(D_a), fit(D_b), fit(D_c), fit(D_d = D_a re-located by parts in 1e7, other readings), predict, filter(D_a), grid, score(last dataset), scatter, profile, clone, set_params(**get_params()), switch to an "
     "alternative / back to the base parameter set through set_params, caller overwrites the arrays it passed earlier}, depth 3 (thorough 4), every history replayed on a fresh estimator (histories merged on (abstract state, concrete fingerprint) only for SplineCV), invariant: the "
-    "fingerprint equals that of the shortest history with the same abstract state; (b2) histories of depth 3 (thorough 5) over ONE instance of each of 9 parameter-only objects (BlockReduce x3, BlockMean x2, BlockKFold x2, BlockShuffleSplit, CheckerBoard) with the alphabet {call on D_a / D_b / D_c, call again with the same array objects reversed in place, two interleaved split loops on one cross-validator, switch a parameter and back, clone, params round trip, caller overwrites everything passed and received}: every call equals that of a fresh instance with the current parameters. (c) %d single inconsistencies that must raise. "
+    "fingerprint equals that of the shortest history with the same abstract state; (b2) histories of depth 3 (thorough 4) over ONE instance of each of 9 parameter-only objects (BlockReduce x3, BlockMean x2, BlockKFold x2, BlockShuffleSplit, CheckerBoard) with the alphabet {call on D_a / D_b / D_c, call again with the same array objects reversed in place, two interleaved split loops on one cross-validator, switch a parameter and back, clone, params round trip, caller overwrites everything passed and received}: every call equals that of a fresh instance with the current parameters. (c) %d single inconsistencies that must raise. "
     "Non-trivial: every case."
     " Added axes: read-only / view / Fortran variants compared with round-off tolerance, scribble on outputs then repeat, same array objects with new contents, interference sequences A, B, A over 26 function families, parameter switch events with stale states, invalid table of about 150 inconsistent calls (shapes, component counts, both / neither of shape and spacing, inverted and out-of-range regions incl. UTM-scale and geographic ones)."
 )
@@ -376,7 +376,7 @@ def cases(tier, seed):
     for name in SPECS:
         yield dict(kind="history", spec=name, depth=3 if tier == "quick" else 4)
     for name in OBJ_SPECS:
-        yield dict(kind="objhistory", spec=name, depth=3 if tier == "quick" else 5)
+        yield dict(kind="objhistory", spec=name, depth=3 if tier == "quick" else 4)
     for name in _invalid_list():
         yield dict(kind="invalid", name=name)
     for name in SPECS:
